@@ -239,13 +239,23 @@ def symbolic_lookups(ctx, q, rp, eng0, mf, ms, registry, key, hint, width, ename
                           "entry named %s carries opcode %d (= %s)" % (e["opname"], e["opcode"], names_of.get(e["opcode"])),
                           {"cmd": "lookup %s %d" % (key, e["opcode"])})
     # entries never returned by any lookup are shadowed duplicates (or unreachable)
-    for i, e in enumerate(entries):
-        if i not in hit_idx:
-            first = [j for j, f in enumerate(entries) if f["opcode"] == e["opcode"]][0]
+    truncated = any(r_.status == "loop_bound" for r_ in res)
+    unreached = [i for i in range(len(entries)) if i not in hit_idx]
+    if unreached and (truncated or len(unreached) > 8):
+        # the exploration did not cover the whole table (a lookup written as a loop longer than the unrolling bound): no verdict
+        ctx.ob("%s/lookup/covers-the-table" % key, None, "%d of %d entries were not reached by the symbolic lookup (exploration bound)" % (len(unreached), len(entries)))
+        unreached = []
+    for i in unreached:
+        e = entries[i]
+        first = [j for j, f in enumerate(entries) if f["opcode"] == e["opcode"]][0]
+        real = rp.ask("lookup %s %d" % (key, e["opcode"]))
+        if first != i or not real.get("found") or real.get("opname") != e["opname"]:
             ctx.ob("%s/entry-reachable/%s" % (key, e["opname"]), False, "shadowed by entry %d" % first)
             ctx.violation("grammar/%s/duplicate-opcode/%s" % (key, e["opname"]),
-                          "entry %s (opcode %d) can never be returned by lookup_opcode: entry %s precedes it" % (e["opname"], e["opcode"], entries[first]["opname"]),
-                          {"cmd": "lookup %s %d" % (key, e["opcode"])})
+                          "entry %s (opcode %d) can never be returned by lookup_opcode: entry %s precedes it (the compiled crate answers %s)" % (
+                              e["opname"], e["opcode"], entries[first]["opname"], real.get("opname")), {"cmd": "lookup %s %d" % (key, e["opcode"]), "real": real})
+        else:
+            ctx.ob("%s/entry-reachable/%s" % (key, e["opname"]), None, "not reached by the symbolic lookup, but the compiled crate returns it")
     # ---- get(op) is total on declared opcodes
     gc = [c for c in mf.find("get") if "closure" not in c[0] and "syntax.rs" in c[0] and uses_static(mf, c[2], hint)]
     if len(gc) != 1:
